@@ -29,7 +29,7 @@ class Driver(GenericAdapter):
         self.name = conc
         self.K = CONCS[conc]
         self._tab = {}
-        for i in range(1, 2000):
+        for i in range(1, 6000):
             self._tab[self.K(i)] = i
 
     def dec(self, x):
